@@ -420,7 +420,10 @@ func VerifTrav_HonestP1() { VerifTrav_Honest() }
 // Stop arriving at any moment while one query is bound to its context (a silent remote) and another
 // one completes around the same time: whichever way the run loop exits, the silent query's context is
 // cancelled, Stopped fires and nothing stays blocked.
-func VerifTrav_StopWhileAwake() {
+func VerifTrav_StopWhileAwake()      { verifStopWhileAwake(4) }
+func VerifTrav_StopWhileAwakeQuick() { verifStopWhileAwake(2) }
+
+func verifStopWhileAwake(maxYields int) {
 	n := verifNewNet(verifTarget, 3)
 	n.nodes[0].neighbours = []int{2}
 	slowStarted, slowCtxCancelled := false, false
@@ -436,7 +439,7 @@ func VerifTrav_StopWhileAwake() {
 	op := Start(OperationInput{Target: n.target, Alpha: 2, K: 2, DoQuery: doQuery})
 	n.seed(op, 1, true)
 	n.seed(op, 0, true)
-	for i := verifChoice(0, 4); i > 0; i-- {
+	for i := verifChoice(0, maxYields); i > 0; i-- {
 		verifYield()
 	}
 	op.Stop()
